@@ -330,6 +330,14 @@ func (vc *VC) typeID(t types.Type) string {
 	vc.typeIDs[k] = id
 	vc.typeOrder = append(vc.typeOrder, k)
 	vc.raw(fmt.Sprintf("; typeid %d = %s", id, k))
+	switch t.Underlying().(type) {
+	case *types.Pointer, *types.Map, *types.Chan:
+		if !vc.gdecl["is_ref_type"] {
+			vc.gdecl["is_ref_type"] = true
+			vc.raw("(declare-fun is_ref_type (Int) Bool)")
+		}
+		vc.raw(fmt.Sprintf("(assert (is_ref_type %d))", id))
+	}
 	return fmt.Sprint(id)
 }
 
